@@ -21,6 +21,13 @@ CHECKS = {
         "numpy trusted; tolerances 1e-9 (cos), 1e-5 deg, 1e-9 rad plus a documented rounding model of the code's arccos-based formulas; mirror image about the (V,N) plane not distinguished.",
         "DESIGN.md §4 C02",
     ),
+    "C03": (
+        "exploration",
+        "Hypothesis property-based testing: generated per-event arrays (ties, cone-edge equalities, decays at/beyond the path end) on real thrown geometries of both modes against a plain-Python (math.fsum) evaluation of the documented estimator from the stored columns; metamorphic permutation/threshold/0.826-bound relations; end-to-end recomputation of the header integrals from tables returned by compute()",
+        "Integral, geometric integral and pass count compared at 1e-11..1e-12 for both modes and both channels, incl. repeated evaluations on one geometry object. Evidence, not proof.",
+        "dark-sky mask taken from C13's independent oracle (cases inside its don't-care band skip the mask-dependent quantities); radio SNR recomputed from the stored fields with the oracle's own formula.",
+        "DESIGN.md §4 C03",
+    ),
     "C04": (
         "exploration",
         "Hypothesis property-based testing: inverse-transform residual |F(z)-u| against an independently read and blended table (h5py + own bilinear/linear interpolation), monotonicity on pairs, rejection of out-of-range energies, scripted numpy.random for the internal-generator path; batches expanded across the 8192-element iterator buffer",
